@@ -131,7 +131,8 @@ func (k Keeper) UpdateMeta(ctx sdk.Context, order ordertypes.Order) error {
 		metadata.Commit = order.Commit
 		metadata.Commits = append(metadata.Commits, Version(order.Commit, ctx.BlockHeight()))
 		metadata.Orders = append(metadata.Orders, order.Id)
-		k.ResetMetaDuration(ctx, &metadata)
+		// the shard being completed is not stored as completed yet: count its term explicitly
+		k.resetMetaDuration(ctx, &metadata, uint64(ctx.BlockHeight())+order.Duration)
 	case 3: // renew
 		metadata.OrderId = order.Id
 		metadata.Orders = append(metadata.Orders, order.Id)
@@ -316,9 +317,15 @@ func (k Keeper) RollbackMeta(ctx sdk.Context, dataId string) {
 }
 
 func (k Keeper) ResetMetaDuration(ctx sdk.Context, meta *types.Metadata) {
+	k.resetMetaDuration(ctx, meta, 0)
+}
+
+// resetMetaDuration recomputes the model's lifetime from its completed shards;
+// minExpired is the end of a term that is known but not visible in the store yet.
+func (k Keeper) resetMetaDuration(ctx sdk.Context, meta *types.Metadata, minExpired uint64) {
 	orders := meta.Orders
 
-	var expiredHeight uint64 = 0
+	var expiredHeight uint64 = minExpired
 	shardExpiredMap := make(map[uint64]uint64)
 	for _, orderId := range orders {
 		order, foundOrder := k.order.GetOrder(ctx, orderId)
@@ -340,6 +347,10 @@ func (k Keeper) ResetMetaDuration(ctx sdk.Context, meta *types.Metadata) {
 		}
 	}
 
+	if expiredHeight < meta.CreatedAt {
+		// no completed shard found: keep the current schedule instead of underflowing
+		return
+	}
 	newDuration := expiredHeight - meta.CreatedAt
 
 	if meta.Duration != newDuration {
